@@ -142,6 +142,28 @@ def h_table_sort_ext(k0: Optional[int], k1: Optional[int], k2: Optional[int], e0
     return H.ok()
 
 
+def h_table_sort_repeat(a0: Optional[int], a1: Optional[int], a2: Optional[int], b0: Optional[int], b1: Optional[int], b2: Optional[int], ra: bool, rdup: bool, rb: bool, na_last: bool, form: int) -> bool:
+    """
+    pre: 0 <= form <= 2
+    pre: H.fix(ra=ra, rb=rb, form=form, na_last=na_last)
+    post: _
+    """
+    # the same column is listed twice (by name and as a vector) before another key: the later keys keep THEIR OWN direction flags
+    H.reset()
+    if H.skip(locals()): return True
+    A = [a0, a1, a2]; B = [b0, b1, b2]
+    t = Table({'a': A, 'b': B, 'pos': [0, 1, 2]})
+    by = [['a', t.a, 'b'], ('a', 'a', t.b), [t.a, 'b', 'b']][form]
+    revs = [[ra, rdup, rb], (ra, rdup, rb), [ra, rb, rdup]][form]
+    out = t.sort_by(by, reverse=revs, na_last=na_last)
+    rows = H.rows_of(out)
+    if sorted(r[2] for r in rows) != [0, 1, 2]: return H.fail('not a permutation: %r' % (rows,))
+    # a repeated key can never decide anything its first occurrence has not decided: the order is that of (a, b) with directions (ra, rb)
+    why = _sorted_contract(rows, 2, [ra, rb], na_last)
+    if why: return H.fail('by=%s reverse=%r: %s (rows %r)' % (['name,vector,name', 'names tuple', 'vector,name,name'][form], list(revs), why, rows))
+    return H.ok()
+
+
 def h_vector_sort(k0: Optional[int], k1: Optional[int], k2: Optional[int], k3: Optional[int], n: int, rev: bool, na_last: bool) -> bool:
     """
     pre: 0 <= n <= H.cfg('R', 3)
@@ -232,6 +254,13 @@ def obligations(tier):
                 obs.append(dict(name='table-extkey[name=%s,rev=%d,na_last=%d]' % (kn, rev, na), fn='h_table_sort_ext', config={'keyname': kn, 'rev': rev, 'na_last': na},
                                 budget=90 if q else 400, bounds='3 rows; the key is an external Optional[int] vector (unbounded) named like a column / unnamed; column k unbounded too',
                                 smoke=[[1, 2, 3, 3, None, 1, rev, na]]))
+    for form in ((0, 2) if q else (0, 1, 2)):
+        for ra in B:
+            for rb in B:
+              for na in B:
+                obs.append(dict(name='table-repeated-key[form=%d,ra=%d,rb=%d,na_last=%d]' % (form, ra, rb, na), fn='h_table_sort_repeat', config={'form': form, 'ra': ra, 'rb': rb, 'na_last': na}, budget=100 if q else 600,
+                                bounds='3 rows, keys a and b Optional[int] unbounded, one key listed twice (names / vectors / tuple form) with its own direction flag, na_last symbolic',
+                                smoke=[[1, 1, 0, 2, 1, None, ra, not ra, rb, na, form]]))
     obs.append(dict(name='vector[n<%d]' % R, fn='h_vector_sort', config={'R': R - 1}, budget=40 if q else 200,
                     bounds='len<%d, Optional[int] unbounded' % R, smoke=[[3, None, 1, 2, 2, False, True]]))
     for rev in B:
